@@ -9,6 +9,7 @@ import (
 	"pgregory.net/rapid"
 
 	"verif/internal/hx"
+	"verif/internal/impcheck"
 	"verif/internal/litx"
 	"verif/internal/recipe"
 )
@@ -20,6 +21,9 @@ import (
 type mixedCase struct {
 	Items  []Case `json:"items"`
 	Holder string `json:"holder"` // the list construct holding them
+	// Pkgs: last path elements of packages the same File refers to — names of the predeclared types the
+	// literals are converted to (byte, rune, string, ...), which must not end up as import names
+	Pkgs []string `json:"pkgs,omitempty"`
 }
 
 func litOf(c Case) *recipe.Node {
@@ -108,6 +112,36 @@ func checkMixed(c mixedCase) error {
 			return fmt.Errorf("%d literals in one %s: token %d is %v %s, but rendered alone that literal gives %v %s\n%s", len(items), c.Holder, i, gs[i].Tok, gs[i].Lit, want[i].Tok, want[i].Lit, got)
 		}
 	}
+	if len(c.Pkgs) > 0 {
+		// the literals next to references to packages named like predeclared types: the File type-checks,
+		// i.e. byte(0x61) still converts to the predeclared byte
+		fr := &recipe.File{Ctor: "NewFile", Args: []recipe.Text{"p"}}
+		markers := map[string]string{}
+		vals := recipe.S().C("Var").C("Id", "_").C("Op", "=").C("Index").C("Interface").C("Values", cloneAll(items))
+		fr.Body = append(fr.Body, vals)
+		for i, name := range c.Pkgs {
+			path := "example.com/wire/" + name
+			m := fmt.Sprintf("S%d", i)
+			markers[m] = path
+			ref := recipe.S().C("Var").C("Id", "_").C("Op", "=").Add(recipe.Qual(path, m))
+			if i%2 == 0 {
+				fr.Body = append([]*recipe.Node{ref}, fr.Body...)
+			} else {
+				fr.Body = append(fr.Body, ref)
+			}
+		}
+		var src string
+		if perr := hx.Safe(func() error { src = recipe.BuildFile(fr).GoString(); return nil }); perr != nil {
+			return fmt.Errorf("literals next to imports of packages named like types: %v", perr)
+		}
+		rep, err := impcheck.Analyze([]byte(src), &impcheck.World{Real: func(string) string { return "zzreal" }, Markers: markers, HasLocal: true})
+		if err != nil {
+			return err
+		}
+		if len(rep.TypeErrors) > 0 {
+			return fmt.Errorf("a File with string / rune / byte literals and imports of packages named like predeclared types does not type-check: %s\n%s", strings.Join(rep.TypeErrors, "; "), src)
+		}
+	}
 	return nil
 }
 
@@ -153,6 +187,12 @@ func TestC12Mixed(t *testing.T) {
 				}
 			}
 			c.Items = append(c.Items, it)
+		}
+		if rapid.IntRange(0, 3).Draw(rt, "withpkgs") == 0 {
+			for i := rapid.IntRange(1, 3).Draw(rt, "npkgs"); i > 0; i-- {
+				c.Pkgs = append(c.Pkgs, rapid.SampledFrom([]string{"byte", "rune", "string", "uint8", "int32", "any", "cap", "len"}).Draw(rt, "pkg"))
+			}
+			r.Class("mixed:with_type_named_imports")
 		}
 		if same {
 			r.Class("mixed:same_character_in_two_kinds")
